@@ -31,6 +31,7 @@ type VOp struct {
 	Sub   string `json:"sub,omitempty"`
 	Tgt   string `json:"tgt,omitempty"`
 	Sig   string `json:"sig,omitempty"`
+	Sp    string `json:"sp,omitempty"` // spelling of the address fields (Submit): lower | upper | subupper | bothupper | mixed | padded
 	Kind  string `json:"kind,omitempty"`
 	To    string `json:"to,omitempty"`
 	Route string `json:"route,omitempty"`
@@ -256,17 +257,13 @@ func (w *VWorld) longAccount(form string, sub, tgt *chain.Acct) (account, sig st
 // proofToken names the proof stored for address name: none | valid | valid2 | v27 | forged | misfiled | corrupt.
 func (w *VWorld) proofToken(ctx sdk.Context, name string) string {
 	a := w.Accts[name]
-	k := w.C.App.VAuthKeeper
-	has := k.HasProofExternalOwnedAccount(ctx, a.Acc())
-	p := k.GetProofExternalOwnedAccount(ctx, a.Acc())
-	if !has && p == nil {
+	p := w.C.App.VAuthKeeper.GetProofExternalOwnedAccount(ctx, a.Acc())
+	if p == nil {
 		return "none"
 	}
-	if !has || p == nil {
-		return "corrupt"
-	}
 	wantHash := "0x" + hex.EncodeToString(ethcrypto.Keccak256([]byte(vauthtypes.MessageToSign)))
-	if p.Account != a.Acc().String() {
+	// the account the record was issued for, whatever its spelling
+	if acc, err := sdk.AccAddressFromBech32(p.Account); err != nil || !bytes.Equal(acc, a.Acc()) {
 		return "misfiled" // the record found under this address was submitted for another account
 	}
 	if p.Hash != wantHash || !strings.HasPrefix(p.Signature, "0x") {
@@ -311,16 +308,17 @@ func (w *VWorld) kindOf(ctx sdk.Context, name string) string {
 // Project is the abstract state: proof store, account kinds, balances and supply in units of the cost.
 func (w *VWorld) Project() trace.M {
 	ctx := w.C.Ctx()
-	proof, kind, q, r := trace.M{}, trace.M{}, trace.M{}, trace.M{}
+	proof, kind, q, r, has := trace.M{}, trace.M{}, trace.M{}, trace.M{}, trace.M{}
 	for _, n := range w.Names {
-		proof[n] = w.proofToken(ctx, n)
+		proof[n] = w.proofToken(ctx, n) // from the stored record
+		has[n] = w.C.App.VAuthKeeper.HasProofExternalOwnedAccount(ctx, w.Accts[n].Acc())
 		kind[n] = w.kindOf(ctx, n)
 		qq, rr := splitUnits(w.C.Bal(w.Accts[n].Addr, chain.Denom), w.Cost)
 		q[n], r[n] = qq, rr
 	}
 	sq, sr := splitUnits(w.C.Supply(chain.Denom), w.Cost)
 	// every proof in the store belongs to the universe? (a proof for an address nobody asked for would be a finding)
-	return trace.M{"proof": proof, "kind": kind, "q": q, "r": r, "supplyQ": sq, "supplyR": sr}
+	return trace.M{"proof": proof, "has": has, "kind": kind, "q": q, "r": r, "supplyQ": sq, "supplyR": sr}
 }
 
 func (w *VWorld) vestMsg(kind string, from, to *chain.Acct) sdk.Msg {
@@ -355,13 +353,29 @@ func (w *VWorld) Exec(o VOp) trace.M {
 	case "Submit":
 		signer = w.Accts[o.Sub]
 		t := w.Accts[o.Tgt]
-		account, sig := t.Acc().String(), ""
+		account, sig, submitter := t.Acc().String(), "", signer.Acc().String()
 		if strings.HasPrefix(o.Sig, "L_") {
 			account, sig = w.longAccount(o.Sig, signer, t)
 		} else {
 			sig = w.sigString(o.Sig, t, signer)
 		}
-		msgs = []sdk.Msg{&vauthtypes.MsgSubmitProofExternalOwnedAccount{Submitter: signer.Acc().String(), Account: account, Signature: sig}}
+		switch o.Sp {
+		case "", "lower":
+		case "upper":
+			account = strings.ToUpper(account)
+		case "subupper":
+			submitter = strings.ToUpper(submitter)
+		case "bothupper":
+			account, submitter = strings.ToUpper(account), strings.ToUpper(submitter)
+		case "mixed":
+			i := strings.LastIndex(account, "1") // separator: human-readable part stays lower-case, data part upper-case
+			account = account[:i+1] + strings.ToUpper(account[i+1:])
+		case "padded":
+			account = " " + account + " "
+		default:
+			infra("unknown spelling %q", o.Sp)
+		}
+		msgs = []sdk.Msg{&vauthtypes.MsgSubmitProofExternalOwnedAccount{Submitter: submitter, Account: account, Signature: sig}}
 	case "Create":
 		signer = w.Accts["s0"]
 		to := w.Accts[o.To]
